@@ -28,6 +28,13 @@ FN_PATTERNS = {
     "equals": r"primitive\.rs.*>::equals$", "negate": r"primitive\.rs.*>::negate$",
 }
 
+BOOLOPS = ["and", "or", "bxor"]
+SYMBOL.update({"and": "&&", "or": "||", "bxor": "^", "not": "!", "nequals": "!="})
+# symbol strings the `bin_op` instruction dispatches on
+RT_SYMBOL = {"add": "+", "sub": "-", "mul": "*", "div": "/", "rem": "%", "bitand": "&", "bitor": "|", "bitxor": "xor",
+             "shl": "<<", "shr": ">>", "lt": "<", "le": "<=", "gt": ">", "ge": ">=", "equals": "=", "and": "&&", "or": "||", "bxor": "^"}
+CRATE_PREFIXES = ["variables::", "context::", "instruction::", "function::", "stack::", "implementations::", "Ctx", "file::"]
+
 RESOLVE = [
     (r"^variables::primitive::Primitive::ty$", r"primitive\.rs.*>::ty$"),
     (r"^variables::primitive::Primitive::equals$", r"primitive\.rs.*>::equals$"),
@@ -35,6 +42,8 @@ RESOLVE = [
 
 
 def sym_payload(kind, name):
+    if kind == "Str":
+        return Opaque("String", name)
     ty = KTY[kind]
     if ty == "f64":
         return Sc("f64", z3.FP(name, F64))
@@ -60,6 +69,7 @@ class Path:
 class Summary:
     def __init__(self, op, kinds, inputs, paths, fn_name, wall):
         self.op, self.kinds, self.inputs, self.paths, self.fn_name, self.wall = op, kinds, inputs, paths, fn_name, wall
+        self.via = "function"
 
 
 class Kernels:
@@ -69,14 +79,62 @@ class Kernels:
         self.mf = mf
         self.oc = overflow_checks
         targets.register_primitive_enum(repo)
-        self.ex = sym.Executor(mf, overflow_checks, models.base_models(), targets.make_resolver(mf, RESOLVE), seed=seed)
+        self.ex = sym.Executor(mf, overflow_checks, models.base_models(), targets.generic_resolver(mf, CRATE_PREFIXES), seed=seed)
+        self.instr_fn = {}
+        for ins in ("bin_op", "equ", "neq"):
+            self.instr_fn[ins] = targets.find_one(mf, r"^%s$" % ins)
+        for ins in ("neg", "not"):
+            self.instr_fn[ins] = targets.find_one(mf, r"^implementations::%s$" % ins)
         self.fn = {}
         for op, pat in FN_PATTERNS.items():
             pred = targets.by_ref_args if op not in ("negate",) else None
             self.fn[op] = targets.find_one(mf, pat, pred)
 
     def encoded_functions(self):
-        return {op: {"mir_item": n, "mir_lines": self.mf.func(n).nlines} for op, n in self.fn.items()}
+        d = {op: {"mir_item": n, "mir_lines": self.mf.func(n).nlines} for op, n in self.fn.items()}
+        for ins, n in self.instr_fn.items():
+            d["instruction:" + ins] = {"mir_item": n, "mir_lines": self.mf.func(n).nlines}
+        return d
+
+    def summarize_instr(self, op, kinds):
+        """the same kernel reached the way compiled code reaches it: through the interpreter instruction
+        (`bin_op <symbol>`, `equ`, `neq`, `neg`, `not`) acting on the operand stack of a Ctx"""
+        t = time.time()
+        names = ["a", "b"]
+        inputs = [sym_payload(k, names[i]) for i, k in enumerate(kinds)]
+        operands = [prim(k, inputs[i]) for i, k in enumerate(kinds)]
+        if op in ("equals", "nequals") and True:
+            ins, iargs = ("equ" if op == "equals" else "neq"), []
+        elif op == "negate":
+            ins, iargs = "neg", []
+        elif op == "not":
+            ins, iargs = "not", []
+        else:
+            ins, iargs = "bin_op", [Opaque("strlit", '"%s"' % RT_SYMBOL[op])]
+        ctx = Adt("Ctx", None, [Adt("Vec", None, operands)] + [Opaque("ctx-field", i) for i in range(1, 6)])
+        cells = {("ctx",): ctx, ("iargs",): Adt("[]", None, iargs)}
+        outs = self.ex.run(self.instr_fn[ins], [Ref(("ctx",)), Ref(("iargs",))], cells=cells)
+        paths = []
+        for o in outs:
+            if o.kind == "panic":
+                paths.append(Path(o.pc, "panic", site=o.value.site, msg=o.value.msg))
+                continue
+            v = o.value
+            if not (isinstance(v, Adt) and v.ty == "Result"):
+                raise Inconclusive("instruction %s returned %r" % (ins, v))
+            if v.variant == "Err":
+                paths.append(Path(o.pc, "err", msg=repr(v.fields[0])[:120]))
+                continue
+            stack = o.cells[("ctx",)].fields[0]
+            if len(stack.fields) != 1:
+                raise Inconclusive("instruction %s left %d operands on the stack" % (ins, len(stack.fields)))
+            res = stack.fields[0]
+            if not (isinstance(res, Adt) and res.ty == "Primitive"):
+                raise Inconclusive("instruction %s left %r" % (ins, res))
+            paths.append(Path(o.pc, "ok", res.variant, res.fields[0]))
+        summ = Summary(op, tuple(kinds), inputs, paths, self.instr_fn[ins], time.time() - t)
+        summ.via = "instruction `%s%s`" % (ins, (" " + RT_SYMBOL[op]) if ins == "bin_op" else "")
+        return summ
 
     def summarize(self, op, kinds):
         t = time.time()
@@ -91,6 +149,11 @@ class Kernels:
                 paths.append(Path(o.pc, "panic", site=o.value.site, msg=o.value.msg))
                 continue
             v = o.value
+            if isinstance(v, Adt) and v.ty == "Result" and v.variant == "Ok" and op not in ("equals", "negate"):
+                inner = v.fields[0]
+                if isinstance(inner, Adt) and inner.ty == "Primitive" and inner.variant == "Str":
+                    paths.append(Path(o.pc, "ok", "Str", inner.fields[0]))
+                    continue
             if op in CMPS:
                 if not (isinstance(v, Sc) and v.ty == "bool"):
                     raise Inconclusive("%s returned %r" % (op, v))
@@ -142,6 +205,24 @@ def _o(kind, undefined, value):
 
 def oracle(op, kinds, inputs):
     """-> dict(supported, kind, defined, value)  `defined` false = the exact result is unrepresentable/undefined"""
+    if op == "not":
+        if kinds[0] == "Bool":
+            return _o("Bool", {}, z3.Not(inputs[0].e))
+        return dict(supported=False)
+    if op in BOOLOPS:
+        if tuple(kinds) == ("Bool", "Bool"):
+            a, b = inputs
+            return _o("Bool", {}, {"and": z3.And(a.e, b.e), "or": z3.Or(a.e, b.e), "bxor": z3.Xor(a.e, b.e)}[op])
+        return dict(supported=False)
+    if op == "nequals":
+        o = oracle("equals", kinds, inputs)
+        if o["supported"]:
+            o = dict(o, value=z3.Not(o["value"]))
+        return o
+    if any(k not in RANK for k in kinds):
+        if op == "equals" and kinds[0] == kinds[1] == "Bool":
+            return _o("Bool", {}, inputs[0].e == inputs[1].e)
+        return dict(supported=False)
     if op == "negate":
         k = kinds[0]
         a = inputs[0]
@@ -286,6 +367,7 @@ BOUNDARY = {
     "BigInt": [1 << 127, (1 << 127) + 1, (1 << 128) - 1, 0, 1, 2, 127, 128, (1 << 127) - 2, (1 << 127) - 1, 1 << 64, (1 << 32), (1 << 31),
                (1 << 128) - (1 << 31) - 1, (1 << 53) + 1, 4294967299, (1 << 128) - 1000],
     "Byte": [0, 1, 2, 7, 8, 9, 127, 128, 254, 255, 0x64],
+    "Bool": [0, 1],
     "Float": [0x0000000000000000, 0x8000000000000000, 0x3FF0000000000000, 0xBFF0000000000000, 0x3FE0000000000000, 0x7FF0000000000000,
               0xFFF0000000000000, 0x7FF8000000000000, 0x0000000000000001, 0x7FEFFFFFFFFFFFFF, 0x41E0000000000000, 0xC1E0000000000000,
               0x4340000000000000, 0x4008000000000000, 0xC020000000000000, 0x3FB999999999999A, 0x47E0000000000000, 0x43E0000000000000],
